@@ -52,7 +52,7 @@ extern int mpt_outdata_recv(MPT_STRUCT(outdata) *out)
 		post = out->_smax;
 		max += post;
 	}
-	if (!(addr = mpt_array_slice(&out->buf, max, 0))) {
+	if (!(addr = mpt_array_slice(&out->buf, 0, max))) {
 		return MPT_ERROR(BadOperation);
 	}
 	buf = out->buf._buf;
